@@ -52,20 +52,30 @@ def roll_mux(window, stride):
                 elif isinstance(i, rs.OnCompletedMux):                    
                     kindex = i.key[0]
                     i.store.set_state(state_n, (kindex, i.key), 0)
+                    # close the windows still open, oldest first
+                    pending = []
                     for offset in range(density):
                         index = i.key[0] * density + offset
-                        if i.store.get_state(state_w, (index, i.key)) != -1:
-                            observer.on_next(i._replace(key=(index, i.key)))
-                            i.store.set_state(state_w, (index, i.key), -1)
+                        w_value = i.store.get_state(state_w, (index, i.key))
+                        if w_value != -1:
+                            pending.append((w_value, index))
+                    for _, index in sorted(pending):
+                        observer.on_next(i._replace(key=(index, i.key)))
+                        i.store.set_state(state_w, (index, i.key), -1)
                     outer_observer.on_next(i)
                 elif isinstance(i, rs.OnErrorMux):
                     kindex = i.key[0]
                     i.store.set_state(state_n, (kindex, i.key), 0)
+                    # close the windows still open, oldest first
+                    pending = []
                     for offset in range(density):
                         index = i.key[0] * density + offset
-                        if i.store.get_state(state_w, (index, i.key)) != -1:
-                            observer.on_next(i._replace(key=(index, i.key)))
-                            i.store.set_state(state_w, (index, i.key), -1)
+                        w_value = i.store.get_state(state_w, (index, i.key))
+                        if w_value != -1:
+                            pending.append((w_value, index))
+                    for _, index in sorted(pending):
+                        observer.on_next(i._replace(key=(index, i.key)))
+                        i.store.set_state(state_w, (index, i.key), -1)
                     outer_observer.on_next(i)
                 elif type(i) is rs.state.ProbeStateTopology:
                     state_n = i.topology.create_state(name="roll", data_type='uint', default_value=0)
